@@ -97,6 +97,39 @@ pub fn ladder_and_chain(k: usize, c: usize, keying: Keying) -> Dag {
     g.finish(keying)
 }
 
+/// `init – F – b_1 … b_k`, every b_i with two children; the 2k children are the heads (no merges).
+/// All b_i tie on max cut and so do all children: spilled convergence blocks then have overlapping
+/// max-cut ranges. Keys are ordered c_i_1 < b_i < c_i_2 within each group.
+pub fn fan2(k: usize, keying: Keying) -> Dag {
+    let mut g = B::new();
+    let f = g.basic(0);
+    let bs: Vec<usize> = (0..k).map(|_| g.basic(f)).collect();
+    let mut kids = Vec::new();
+    for &b in &bs {
+        kids.push((g.basic(b), g.basic(b)));
+    }
+    let mut d = g.finish(keying);
+    // explicit ranks: group i occupies three consecutive ranks (c1 < b < c2); groups ascend or descend
+    let n = k.max(1);
+    for (i, (&b, &(c1, c2))) in bs.iter().zip(&kids).enumerate() {
+        let gi = match keying {
+            Keying::Desc => n - 1 - i,
+            Keying::Interleaved => if i % 2 == 0 { i / 2 } else { n - 1 - i / 2 },
+            _ => i,
+        };
+        let base = 0x10 + ((gi * 0xd0) / n) as u8;
+        d.nodes[c1].rank = base;
+        d.nodes[b].rank = base;
+        d.nodes[c2].rank = base;
+        // ids also carry the node index, so equal rank bytes are ordered by index: make c1 < b < c2
+        // hold through priorities instead (the strand key is (priority, id))
+        d.nodes[c1].kind = Kind::Basic(0);
+        d.nodes[b].kind = Kind::Basic(1);
+        d.nodes[c2].kind = Kind::Basic(2);
+    }
+    d
+}
+
 /// Diamonds nested `d` deep on both sides of a fork, next to a short chain.
 pub fn nested(d: usize, keying: Keying) -> Dag {
     fn build(g: &mut B, root: usize, d: usize) -> usize {
@@ -369,6 +402,11 @@ pub fn run_families(rep: &mut Report, flavour_s: bool, thorough: bool, class_ok:
                     jobs.push((format!("nested({d},{ky:?})"), nested(d, ky), seg));
                 }
             }
+            for k in 2..=(if thorough { 40 } else { 20 }) {
+                for seg in 0..3 {
+                    jobs.push((format!("fan2({k},{ky:?})"), fan2(k, ky), seg));
+                }
+            }
         }
     } else {
         // shipped thresholds: braids of 257+, > 768 live convergence entries
@@ -378,6 +416,9 @@ pub fn run_families(rep: &mut Report, flavour_s: bool, thorough: bool, class_ok:
                 jobs.push((format!("star({b},{len},{ky:?})"), star(b, len, ky), 0));
             }
         }
+        for &ky in &[Keying::Asc, Keying::Desc] {
+            jobs.push((format!("fan2(600,{ky:?})"), fan2(600, ky), 0));
+        }
         let ladders: &[(usize, usize)] = if thorough { &[(300, 2), (800, 3), (800, 300)] } else { &[(300, 2)] };
         for &ky in &[Keying::Desc, Keying::AltPrio] {
             for &(k, c) in ladders {
@@ -385,10 +426,19 @@ pub fn run_families(rep: &mut Report, flavour_s: bool, thorough: bool, class_ok:
             }
         }
     }
+    if let Ok(only) = std::env::var("RTG_ONLY") {
+        jobs.retain(|(n, _, _)| n.starts_with(&only));
+        for (n, _, s) in &jobs {
+            eprintln!("job {n} seg={s}");
+        }
+    }
     let accs: Vec<Acc> = jobs
         .par_iter()
         .map(|(name, dag, seg)| {
             let mut acc = Acc::default();
+            if std::env::var("RTG_ONLY").is_ok() {
+                eprintln!("start {name} seg={seg}");
+            }
             run_graph(dag, name, *seg, class_ok, &mut acc);
             acc
         })
